@@ -62,6 +62,15 @@ fn value(t: &mut Tape, names: &[String]) -> String {
         0 => {
             let mut s = hazard_string(t, 5);
             s.retain(|c| c != ESC_MARK);
+            if t.chance(1, 60) && !s.is_empty() {
+                // a long value: the unit repeated up to 4..70 KiB
+                let span = if t.chance(1, 4) { 66_000 } else { 5_000 };
+                let target = 4_000 + t.below(span);
+                let unit = s.clone();
+                while s.len() < target {
+                    s.push_str(&unit);
+                }
+            }
             s
         }
         1 => {
@@ -86,7 +95,13 @@ fn value(t: &mut Tape, names: &[String]) -> String {
 fn spread_value(t: &mut Tape, st: &mut Stats) -> Option<String> {
     match t.weighted(&[5, 1, 1, 1]) {
         0 => {
-            let n = t.len(5);
+            // one spread value in forty has hundreds of words
+            let n = if t.chance(1, 40) {
+                st.class("spread-of-over-100-words");
+                101 + t.below(600)
+            } else {
+                t.len(5)
+            };
             let mut s = String::new();
             if t.chance(1, 4) {
                 s.push_str(&" ".repeat(1 + t.below(3)));
@@ -154,7 +169,12 @@ fn gen_case(t: &mut Tape, st: &mut Stats) -> Case {
     let mut nontrivial = false;
     let mut spread_names: Vec<String> = vec![];
     // decide templates first so that spread variables get spread-shaped values
-    let na = 1 + t.len(7);
+    // one case in fifty has many arguments (20..120) instead of 1..8
+    let many = t.chance(1, 50);
+    let na = if many { 20 + t.below(101) } else { 1 + t.len(7) };
+    if many {
+        st.class("twenty-or-more-arguments");
+    }
     let mut tmpls = vec![];
     for _ in 0..na {
         if t.chance(1, 5) {
@@ -205,6 +225,9 @@ fn gen_case(t: &mut Tape, st: &mut Stats) -> Case {
             }
             if v.contains('"') || v.contains('#') || v.contains('\\') {
                 st.class("value-with-quote-hash-backslash");
+            }
+            if v.len() > 4096 {
+                st.class("value-longer-than-4096-bytes");
             }
             if v.chars().any(|c| !c.is_ascii_alphanumeric()) {
                 nontrivial = true;
@@ -414,7 +437,7 @@ fn case_text(t: &mut Tape, st: &mut Stats) -> Verdict {
 pub fn property() -> Property {
     Property {
         id: "C02",
-        rule: "1..8 argument templates (literal text free of $ % \\, ${name}, \\${name}, whole-argument %{name}) over 1..6 names (incl. empty, odd and 40..400-character names) and an environment of arbitrary-Unicode values biased to syntax look-alikes that refer to existing names; received arguments compared (count, order, text) with a reference expander. Drivers: direct (run_instruction on an in-memory instruction) and text (rendered line run by run_script, values delivered at run time by 'v = put i'). Non-trivial: a substituted value with a non-alphanumeric character, or a spread of != 1 words; distinct by (templates, environment) hash",
+        rule: "1..8 (one case in fifty: 20..120) argument templates (literal text free of $ % \\, ${name}, \\${name}, whole-argument %{name}) over 1..6 names (incl. empty, odd and 40..400-character names) and an environment of arbitrary-Unicode values (some of 4..70 KiB, some spread values of 101..700 words) biased to syntax look-alikes that refer to existing names; received arguments compared (count, order, text) with a reference expander. Drivers: direct (run_instruction on an in-memory instruction) and text (rendered line run by run_script, values delivered at run time by 'v = put i'). Non-trivial: a substituted value with a non-alphanumeric character, or a spread of != 1 words; distinct by (templates, environment) hash",
         assumptions: &[
             "spread words never start with '\"' and never contain '#' (the re-split honours quotes and comments; the property speaks of space-separated words)",
             "names are free of white space, '=' and '}' and contain no backslash and not the openers '${' / '%{' (inside an escaped reference the name is scanned as ordinary text, so such a name is itself read as syntax); literal text is free of '$', '%' and backslash",
@@ -427,7 +450,7 @@ pub fn property() -> Property {
                     Tier::Thorough => Plan::Random { cases: 15_000_000, max_len: 300 },
                 },
                 case: case_direct,
-                min_classes: &[("value-looks-like-expansion", 5000), ("undefined-name", 5000), ("empty-name", 1000), ("name-longer-than-128-bytes", 1000), ("spread-0-words", 2000), ("spread-spaces-only", 300), ("escaped-reference", 5000), ("spread-word-starts-with-backslash", 300)],
+                min_classes: &[("value-looks-like-expansion", 5000), ("undefined-name", 5000), ("empty-name", 1000), ("name-longer-than-128-bytes", 1000), ("twenty-or-more-arguments", 1000), ("spread-of-over-100-words", 300), ("value-longer-than-4096-bytes", 1000), ("spread-0-words", 2000), ("spread-spaces-only", 300), ("escaped-reference", 5000), ("spread-word-starts-with-backslash", 300)],
             },
             Section {
                 name: "text",
